@@ -15,8 +15,12 @@ import (
 	"testing"
 
 	errorsmod "cosmossdk.io/errors"
+	abci "github.com/cometbft/cometbft/abci/types"
 	codectypes "github.com/cosmos/cosmos-sdk/codec/types"
 	sdk "github.com/cosmos/cosmos-sdk/types"
+	txtypes "github.com/cosmos/cosmos-sdk/types/tx"
+	"github.com/cosmos/cosmos-sdk/types/tx/signing"
+	banktypes "github.com/cosmos/cosmos-sdk/x/bank/types"
 	govv1beta1 "github.com/cosmos/cosmos-sdk/x/gov/types/v1beta1"
 	gogoproto "github.com/cosmos/gogoproto/proto"
 	"github.com/ethereum/go-ethereum/accounts/abi"
@@ -87,6 +91,13 @@ func newSuite(t *testing.T) *suite {
 				t.Fatalf("descriptor %s: %v", url, err)
 			}
 			s.descs[url] = md
+		case "tx":
+			url := strings.TrimPrefix(e.Name, "tx:")
+			md, err := descriptorOf(url)
+			if err != nil {
+				t.Fatalf("descriptor %s: %v", url, err)
+			}
+			s.descs[url] = md
 		case "abi":
 			cn, mn, _ := strings.Cut(strings.TrimPrefix(e.Name, "abi:"), ".")
 			var a abi.ABI
@@ -152,6 +163,8 @@ type outcome struct {
 	Passed  string `json:"passed,omitempty"` // stages that accepted before the deciding one
 	Detail  string `json:"detail,omitempty"`
 	Where   string `json:"where,omitempty"` // first fx-core frame of a recovered panic
+	// Recovered: a panic raised inside a dependency that the application recovered and returned as an error
+	Recovered bool `json:"recovered_dependency_panic,omitempty"`
 }
 
 var fxFrame = regexp.MustCompile(`(?m)^(github\.com/functionx/fx-core/[^\n]*)\n\t([^\n]*)`)
@@ -169,12 +182,85 @@ func frame(stack string) string {
 	return fn + " @ " + strings.TrimSpace(strings.Split(m[2], " +")[0])
 }
 
+var stackFrame = regexp.MustCompile(`(?m)^(\S[^\n]*)\n\t(\S+):(\d+)`)
+
+func cleanFn(fn string) string {
+	fn = strings.TrimPrefix(strings.TrimSpace(fn), "github.com/functionx/fx-core/v8/")
+	if i := strings.LastIndex(fn, "("); i > 0 && strings.HasSuffix(fn, ")") {
+		fn = fn[:i]
+	}
+	return fn
+}
+
+// anyFrame attributes a logged stack: the frame that raised the ORIGINAL panic (the one below the last panic() frame;
+// decorators that recover and re-panic sit above it) and, if different, the first frame below it whose source file
+// belongs to the repository under test.
+func anyFrame(stack string) string {
+	w, _ := attribute(stack)
+	return w
+}
+
+// attribute returns the rendered location and whether the ORIGINAL panic was raised by code of the repository under
+// test ("repo"), by a dependency ("dependency") or cannot be told ("unknown").
+func attribute(stack string) (string, string) {
+	fr := stackFrame.FindAllStringSubmatch(stack, -1)
+	last := -1
+	for i, f := range fr {
+		if strings.HasPrefix(f[1], "panic(") {
+			last = i
+		}
+	}
+	if last < 0 {
+		return frame(stack), "unknown"
+	}
+	origin := -1
+	for i := last + 1; i < len(fr); i++ {
+		if !strings.HasPrefix(fr[i][1], "runtime.") {
+			origin = i
+			break
+		}
+	}
+	if origin < 0 {
+		return "", "unknown"
+	}
+	at := func(i int) string { return cleanFn(fr[i][1]) + " @ " + fr[i][2] + ":" + fr[i][3] }
+	for i := origin; i < len(fr); i++ {
+		if strings.HasPrefix(fr[i][2], repoDir()+"/") {
+			if i == origin {
+				return at(i), "repo"
+			}
+			return at(i) + " (raised in " + at(origin) + ")", "dependency"
+		}
+	}
+	return at(origin), "dependency"
+}
+
+// checkTxOutcome classifies the response of the real CheckTx.  A panic that the application recovered (ErrPanic) is
+// the outcome "panic" when it was raised by fx-core code (or its origin cannot be told); a panic raised inside a
+// dependency and converted into an error by fx-core's ante handler (its deferred Recover) is a rejection, recorded apart.
+func (s *suite) checkTxOutcome(res *abci.ResponseCheckTx, err error) outcome {
+	switch {
+	case err != nil:
+		return outcome{Outcome: "reject", Stage: "checktx", Detail: short(err.Error(), 120)}
+	case res.Code == 0:
+		return outcome{Outcome: "accept", Stage: "checktx"}
+	case isPanicCode(res.Codespace, res.Code):
+		where, origin := attribute(res.Log + "\n" + s.node.LastError())
+		msg := short(strings.SplitN(res.Log, "\n", 2)[0], 200)
+		if origin == "dependency" {
+			return outcome{Outcome: "reject", Stage: "checktx", Detail: "dependency panic recovered by the application and returned as an error: " + msg, Where: where, Recovered: true}
+		}
+		return outcome{Outcome: "panic: " + msg, Stage: "checktx", Where: where}
+	}
+	return outcome{Outcome: "reject", Stage: "checktx", Detail: short(res.Log, 120)}
+}
+
 // guard runs f; a panic is recovered ONLY to be reported as the outcome.
 func guard(stage string, f func() error) (o outcome) {
 	defer func() {
 		if r := recover(); r != nil {
 			o = outcome{Outcome: fmt.Sprintf("panic: %v", r), Stage: stage}
-			o.Where = frame(string(debug.Stack()))
+			o.Where = anyFrame(string(debug.Stack()))
 		}
 	}()
 	if err := f(); err != nil {
@@ -271,20 +357,8 @@ func (s *suite) offer(e *TypeEntry, url string, bz []byte, dm *dynamicpb.Message
 	if err != nil {
 		s.t.Fatal(err)
 	}
-	var o outcome
-	res, err := s.node.CheckTx(tx)
-	switch {
-	case err != nil:
-		o = outcome{Outcome: "reject", Stage: "checktx", Detail: short(err.Error(), 120)}
-	case res.Code == 0:
-		o = outcome{Outcome: "accept", Stage: "checktx"}
-	case isPanicCode(res.Codespace, res.Code):
-		o = outcome{Outcome: "panic: " + short(strings.SplitN(res.Log, "\n", 2)[0], 200), Stage: "checktx"}
-		o.Where = frame(res.Log)
-	default:
-		o = outcome{Outcome: "reject", Stage: "checktx", Detail: short(res.Log, 120)}
-	}
-	return o
+	s.node.LastError()
+	return s.checkTxOutcome(s.node.CheckTx(tx))
 }
 
 type icase struct {
@@ -328,6 +402,67 @@ func memoJSON(url string, dm *dynamicpb.Message) ([]byte, error) {
 	t, _ := json.Marshal(url)
 	m["@type"] = t
 	return json.Marshal(m)
+}
+
+// runTx: one part of the transaction envelope (TxBody / AuthInfo / TxRaw) is replaced by its hostile variant, the
+// transaction is signed by the harness key over exactly those bytes and offered to the real CheckTx.
+func (s *suite) runTx(e *TypeEntry, c icase) outcome {
+	url := strings.TrimPrefix(e.Name, "tx:")
+	k2 := world.DetKey("c20-second").AccAddress()
+	send := banktypes.NewMsgSend(s.signer.AccAddress(), k2, sdk.NewCoins(fxCoin(1)))
+	body := &txtypes.TxBody{Messages: []*codectypes.Any{mustAny(send)}, Memo: "memo"}
+	pk, err := codectypes.NewAnyWithValue(s.signer.PrivKey().PubKey())
+	if err != nil {
+		s.t.Fatal(err)
+	}
+	ai := &txtypes.AuthInfo{
+		SignerInfos: []*txtypes.SignerInfo{{PublicKey: pk, ModeInfo: &txtypes.ModeInfo{Sum: &txtypes.ModeInfo_Single_{Single: &txtypes.ModeInfo_Single{Mode: signing.SignMode_SIGN_MODE_DIRECT}}}, Sequence: s.node.Seq}},
+		Fee:         &txtypes.Fee{Amount: sdk.NewCoins(fxCoin(1)), GasLimit: 20_000_000},
+	}
+	bodyBz, _ := body.Marshal()
+	aiBz, _ := ai.Marshal()
+	mutate := func(src []byte) []byte {
+		dm := dynamicpb.NewMessage(s.descs[url])
+		if err := proto.Unmarshal(src, dm); err != nil {
+			s.t.Fatalf("baseline of %s does not parse: %v", url, err)
+		}
+		if err := s.env.Mutate(dm, e.Fields, c.Cls); err != nil {
+			s.t.Fatalf("INCOMPLETE: %s: %v", url, err)
+		}
+		out, err := proto.MarshalOptions{AllowPartial: true, Deterministic: true}.Marshal(dm)
+		if err != nil {
+			s.t.Fatalf("marshal %s %v: %v", url, c.Cls, err)
+		}
+		return out
+	}
+	sign := func(b, a []byte) []byte {
+		sd := &txtypes.SignDoc{BodyBytes: b, AuthInfoBytes: a, ChainId: "", AccountNumber: s.node.AccNum}
+		sdBz, _ := sd.Marshal()
+		sig, err := s.signer.PrivKey().Sign(sdBz)
+		if err != nil {
+			s.t.Fatal(err)
+		}
+		return sig
+	}
+	var txBz []byte
+	switch url {
+	case "/cosmos.tx.v1beta1.TxBody":
+		bodyBz = mutate(bodyBz)
+		raw := &txtypes.TxRaw{BodyBytes: bodyBz, AuthInfoBytes: aiBz, Signatures: [][]byte{sign(bodyBz, aiBz)}}
+		txBz, _ = raw.Marshal()
+	case "/cosmos.tx.v1beta1.AuthInfo":
+		aiBz = mutate(aiBz)
+		raw := &txtypes.TxRaw{BodyBytes: bodyBz, AuthInfoBytes: aiBz, Signatures: [][]byte{sign(bodyBz, aiBz)}}
+		txBz, _ = raw.Marshal()
+	case "/cosmos.tx.v1beta1.TxRaw":
+		raw := &txtypes.TxRaw{BodyBytes: bodyBz, AuthInfoBytes: aiBz, Signatures: [][]byte{sign(bodyBz, aiBz)}}
+		rawBz, _ := raw.Marshal()
+		txBz = mutate(rawBz)
+	default:
+		s.t.Fatalf("INCOMPLETE: no runner for %s", e.Name)
+	}
+	s.node.LastError()
+	return s.checkTxOutcome(s.node.CheckTx(txBz))
 }
 
 var wordVals = map[string]*big.Int{
@@ -401,7 +536,7 @@ func (s *suite) runABI(e *TypeEntry, c icase) outcome {
 func (s *suite) locate(o outcome, f func()) outcome {
 	defer func() {
 		if r := recover(); r != nil {
-			o.Where = frame(string(debug.Stack()))
+			o.Where = anyFrame(string(debug.Stack()))
 		}
 	}()
 	f()
@@ -493,6 +628,16 @@ func TestDump(t *testing.T) {
 					baseOK[e.Name] += " (" + o.Detail + ")"
 				}
 			}
+		case "tx":
+			valid := make([]string, len(e.Fields))
+			for j := range valid {
+				valid[j] = "valid"
+			}
+			o := s.runTx(e, icase{Type: e.Name, Fam: "fields", Cls: valid})
+			baseOK[e.Name] = o.Outcome + "@" + o.Stage
+			if o.Outcome != "accept" {
+				baseOK[e.Name] += " (" + o.Detail + ")"
+			}
 		case "abi":
 			if _, ok := s.abis[e.Name]; ok {
 				valid := make([]string, len(e.Fields))
@@ -541,6 +686,7 @@ func TestInputs(t *testing.T) {
 	type tstat struct {
 		Cases, Accept, Reject, Panic int
 		PassedVB                     int // stateless validation accepted (whatever happened afterwards)
+		RecoveredDep                 int // rejected because the application recovered a panic raised inside a dependency
 		Stages                       map[string]int
 	}
 	stats := map[string]*tstat{}
@@ -552,6 +698,7 @@ func TestInputs(t *testing.T) {
 		Mutated []string        `json:"mutated"`
 	}
 	panics := map[string]*pinfo{}
+	recovered := map[string]*pinfo{}
 	sc := bufio.NewScanner(f)
 	sc.Buffer(make([]byte, 1<<20), 1<<26)
 	n, executed := 0, 0
@@ -576,6 +723,8 @@ func TestInputs(t *testing.T) {
 			o = s.runMsg(e, c)
 		case "abi":
 			o = s.runABI(e, c)
+		case "tx":
+			o = s.runTx(e, c)
 		case "str":
 			o = s.runStr(e, c)
 		}
@@ -600,7 +749,10 @@ func TestInputs(t *testing.T) {
 			st.Panic++
 			isPanic = true
 		}
-		if isPanic {
+		if o.Recovered {
+			st.RecoveredDep++
+		}
+		if isPanic || o.Recovered {
 			weight := 0
 			var mut []string
 			for i, cl := range c.Cls {
@@ -614,14 +766,19 @@ func TestInputs(t *testing.T) {
 				mut = []string{fmt.Sprintf("%s k=%d d=%d v=%s", c.Fam, c.K, c.D, c.V)}
 			}
 			key := c.Type + " | " + o.Stage + " | " + o.Where + " | " + short(o.Outcome, 80)
-			p := panics[key]
+			book := panics
+			if o.Recovered {
+				book = recovered
+				key = c.Type + " | " + o.Where
+			}
+			p := book[key]
 			if p == nil || weight < p.Weight {
 				cnt := 0
 				if p != nil {
 					cnt = p.Count
 				}
 				p = &pinfo{Case: raw, Real: o, Weight: weight, Mutated: mut, Count: cnt}
-				panics[key] = p
+				book[key] = p
 			}
 			p.Count++
 		}
@@ -632,7 +789,7 @@ func TestInputs(t *testing.T) {
 			w.WriteByte('\n')
 		}
 	}
-	b, _ := json.Marshal(map[string]any{"executed": executed, "types": stats, "panics": panics})
+	b, _ := json.Marshal(map[string]any{"executed": executed, "types": stats, "panics": panics, "recovered_dependency_panics": recovered})
 	if err = os.WriteFile(statsFile, b, 0o644); err != nil {
 		t.Fatal(err)
 	}
